@@ -71,7 +71,7 @@ pub fn materialise(c: &Case) -> Vec<Rec> {
         }
     }
     if let Some(a) = &c.align {
-        let _ = gen::align_records(&mut recs, a);
+        let _ = gen::align_records_nl(&mut recs, a, c.cont.crlf);
     }
     recs
 }
@@ -179,13 +179,21 @@ impl Leg for Files {
             bounds: [1, 60, 0],
             nuc_only: false,
         };
-        (gen::records_in_container(p), prop_oneof![5 => Just(None), 1 => (any::<u16>(), 0u8..60).prop_map(Some)], prop::sample::select(STEMS.to_vec()), prop_oneof![6 => Just(None), 2 => gen::align_strategy(131072).prop_map(Some), 1 => gen::align_strategy(2 << 20).prop_map(Some)])
-            .prop_map(|((recs, mut cont), stretch, stem, align)| {
-                // an aligned record start refers to the single-line LF text (it may still be compressed)
+        (gen::records_in_container(p), prop_oneof![5 => Just(None), 1 => (any::<u16>(), 0u8..60).prop_map(Some)], prop::sample::select(STEMS.to_vec()), prop_oneof![6 => Just(None), 2 => gen::align_strategy(131072).prop_map(Some), 1 => gen::align_strategy(2 << 20).prop_map(Some)], prop_oneof![10 => Just(None), 1 => any::<u16>().prop_map(Some)])
+            .prop_map(|((recs, mut cont), stretch, stem, align, noname)| {
+                // an aligned record start refers to the single-line text, LF or CRLF (it may still be compressed)
                 if align.is_some() {
                     cont.format = Format::Fasta { wrap: None };
-                    cont.crlf = false;
                     cont.suffix %= 3;
+                }
+                let mut recs = recs;
+                // a record without a name (">" or "> description"): the id is the empty first word
+                if let (Some(x), false) = (noname, recs.is_empty()) {
+                    // (a record with neither a name nor bases is the reader library's end-of-input marker: not generated)
+                    let i = crate::util::idx16(x, recs.len());
+                    if !recs[i].seq.0.is_empty() {
+                        recs[i].id = String::new();
+                    }
                 }
                 Case { recs, cont, stretch: if align.is_some() { None } else { stretch }, stem: stem.to_string(), copies: 0, min_len: 0, align }
             })
